@@ -64,7 +64,7 @@ def term_of_number(x):
     if isinstance(x, (int, np.integer)):
         return K.realval(int(x))
     if isinstance(x, (float, np.floating)):
-        return K.realval(Fraction(float(x)))        # exact value: concrete outputs are not "literals"
+        return K.realval(K.frac_of_float(x))        # same lifting as the shadow arithmetic applies to float literals
     if isinstance(x, Fraction):
         return K.realval(x)
     raise Unsupported(f"term_of_number({type(x)})")
@@ -75,7 +75,7 @@ def cterm(x):
     if isinstance(x, SComplex):
         return x.re, x.im
     if isinstance(x, (complex, np.complexfloating)):
-        return K.realval(Fraction(float(x.real))), K.realval(Fraction(float(x.imag)))
+        return K.realval(K.frac_of_float(x.real)), K.realval(K.frac_of_float(x.imag))
     return term_of_number(x), z3.RealVal(0)
 
 
@@ -256,7 +256,7 @@ def qterm(q, unit):
         v = q.to_value(unit)
         return term_of_number(v[()] if isinstance(v, np.ndarray) else v)
     scale = Fraction(repr(float((1 * q.unit).to_value(unit))))
-    return K.realval(Fraction(float(q.value)) * scale)
+    return K.realval(K.frac_of_float(q.value) * scale)
 
 
 def qterms(q, unit):
@@ -265,7 +265,7 @@ def qterms(q, unit):
         v = np.asarray(plain(q.to_value(unit)), dtype=object)
         return [term_of_number(e) for e in v.ravel()]
     scale = Fraction(repr(float((1 * q.unit).to_value(unit))))
-    return [K.realval(Fraction(float(e)) * scale) for e in np.asarray(q.value).ravel()]
+    return [K.realval(K.frac_of_float(e) * scale) for e in np.asarray(q.value).ravel()]
 
 
 class SigView:
